@@ -565,8 +565,8 @@ def search_law_defects(ctx, M, model, only=None):
             Cm = [[D(x.numerator) / D(x.denominator) for x in row] for row in Cq]
             p = gen_params(rng, name)
             params = {k: D(repr(v)) for k, v in p.items()}
-            T1 = [F(2, 3), F(2, 3), F(1, 3)]
-            T2 = [F(-2, 3), F(1, 3), F(2, 3)] if trial % 2 == 0 else [F(1, 3), F(2, 3), F(2, 3)]
+            T1 = [F(2, 7), F(3, 7), F(6, 7)]          # unit, pairwise distinct components
+            T2 = [F(-6, 7), F(2, 7), F(3, 7)] if trial % 2 == 0 else [F(3, 7), F(6, 7), F(2, 7)]
             A = [D(x.numerator) / D(x.denominator) for x in T1]
             B = [D(x.numerator) / D(x.denominator) for x in T2]
             W, dW, d2W = model.tables(L, params, Cm, A, B)
@@ -676,7 +676,7 @@ def search_inv_defects(M):
             what = ("invariant I%d%s: %s entry %s is not the derivative of %s w.r.t. Kelvin-Mandel component %d (exact polynomial comparison modulo r2^2 = 2)"
                     % (key[0], list(key[1]), "dI%ddC" % key[0] if order == 1 else "d2I%ddC" % key[0],
                        [k] if order == 1 else [j, k], "I%d" % key[0] if order == 1 else "dI%ddC[%d]" % (key[0], j), k))
-            rep = {"replay_py": REPLAY_INV % dict(k=key[0], order=order, Ckm=Ckm, A=[2 / 3, 2 / 3, 1 / 3], B=[-2 / 3, 1 / 3, 2 / 3]),
+            rep = {"replay_py": REPLAY_INV % dict(k=key[0], order=order, Ckm=Ckm, A=[2 / 7, 3 / 7, 6 / 7], B=[-6 / 7, 2 / 7, 3 / 7]),
                    "invariant": key[0], "directions": list(key[1]), "entry": [j, k]}
             found.append(("invariant:I%d%s:d%d" % (key[0], "".join(key[1]), order), what, rep))
     return found
